@@ -90,6 +90,16 @@ fn main() {
             }
             0
         }
+        Some("tree") => {
+            // vmain tree <file.bas>: the parse tree's Debug rendering (triage helper)
+            bind::install_panic_hook();
+            let text = std::fs::read_to_string(args.get(2).map(|s| s.as_str()).unwrap_or("")).unwrap_or_default();
+            match bind::try_parse(&text) {
+                Ok(Ok(p)) => println!("{:?}", p),
+                other => println!("no tree: {:?}", other.map(|r| r.map(|_| ()))),
+            }
+            0
+        }
         Some("replay") => {
             let prop = args.get(2).cloned().unwrap_or_default();
             let file = args.get(3).cloned().unwrap_or_default();
